@@ -38,7 +38,7 @@ Lemma srun_sync x i t tm h : is_async x = false ->
   arun (cfg_of x t) (map (vm x) (cycles_sync i h cur)) tm n a.
 Proof.
   intros Ha. induction h as [|o r IH]; intros rs a n cur; [reflexivity|].
-  destruct o as [i' k v|c insts|c|script]; cbn [srun sstep cycles_sync]; rewrite ?Ha; cbn [orb s_regs s_agg s_n].
+  destruct o as [i' k v|c insts|c|script fl]; cbn [srun sstep cycles_sync]; rewrite ?Ha; cbn [orb s_regs s_agg s_n].
   - destruct (Nat.eqb i' i); cbn [negb app].
     + rewrite <- (IH rs a n (cur ++ [(k, v)])). rewrite vm_app, measure_all_app. reflexivity.
     + apply IH.
@@ -55,7 +55,7 @@ Lemma srun_async x i t tm h : is_async x = true ->
   arun (cfg_of x t) (map (vm x) (cycles_async i h rs)) tm n a.
 Proof.
   intros Ha. induction h as [|o r IH]; intros rs a n; [reflexivity|].
-  destruct o as [i' k v|c insts|c|script]; cbn [srun sstep cycles_async]; rewrite ?Ha; cbn [orb s_regs s_agg s_n].
+  destruct o as [i' k v|c insts|c|script fl]; cbn [srun sstep cycles_async]; rewrite ?Ha; cbn [orb s_regs s_agg s_n].
   - apply IH.
   - apply IH.
   - apply IH.
@@ -72,11 +72,11 @@ Proof.
   - apply (srun_sync x i t tm h Ha [] (new_agg t0) 0%nat []).
 Qed.
 
-Lemma cycles_sync_length i h : forall cur, length (cycles_sync i h cur) = length (filter (fun o => match o with Collect _ => true | _ => false end) h).
+Lemma cycles_sync_length i h : forall cur, length (cycles_sync i h cur) = length (filter (fun o => match o with Collect _ _ => true | _ => false end) h).
 Proof.
   induction h as [|o r IH]; intros cur; [reflexivity|]. destruct o; cbn; auto.
 Qed.
-Lemma cycles_async_length i h : forall rs, length (cycles_async i h rs) = length (filter (fun o => match o with Collect _ => true | _ => false end) h).
+Lemma cycles_async_length i h : forall rs, length (cycles_async i h rs) = length (filter (fun o => match o with Collect _ _ => true | _ => false end) h).
 Proof.
   induction h as [|o r IH]; intros rs; [reflexivity|]. destruct o; cbn; auto.
 Qed.
@@ -290,7 +290,7 @@ Lemma cycles_async_erase i c h : forall rs, no_reg c rs -> forallb (fun o => neg
 Proof.
   induction h as [|o r IH]; intros rs Hn Hh; [reflexivity|].
   cbn [forallb] in Hh. apply andb_true_iff in Hh as [Ho Hh]. apply negb_true_iff in Ho.
-  destruct o as [i' k v|c' insts|c'|script]; cbn [erase_cb map cycles_async]; fold (erase_cb c r).
+  destruct o as [i' k v|c' insts|c'|script fl]; cbn [erase_cb map cycles_async]; fold (erase_cb c r).
   - now apply IH.
   - apply IH; [|exact Hh]. now apply (no_reg_step c rs (Register c' insts)).
   - apply IH; [|exact Hh]. now apply (no_reg_step c rs (Unregister c')).
@@ -303,7 +303,7 @@ Lemma cycles_sync_app i h1 h2 : forall cur,
 Proof.
   induction h1 as [|o r IH]; intros cur.
   - exists cur. split; reflexivity.
-  - destruct o as [i' k v|c' insts|c'|script]; cbn [app cycles_sync].
+  - destruct o as [i' k v|c' insts|c'|script fl]; cbn [app cycles_sync].
     + apply IH.
     + apply IH.
     + apply IH.
@@ -316,7 +316,7 @@ Lemma cycles_async_app i h1 h2 : forall rs,
   cycles_async i (h1 ++ h2) rs = cycles_async i h1 rs ++ cycles_async i h2 (fold_left reg_step h1 rs).
 Proof.
   induction h1 as [|o r IH]; intros rs; [reflexivity|].
-  destruct o as [i' k v|c' insts|c'|script]; cbn [app cycles_async fold_left]; rewrite IH; reflexivity.
+  destruct o as [i' k v|c' insts|c'|script fl]; cbn [app cycles_async fold_left]; rewrite IH; reflexivity.
 Qed.
 
 Lemma unregister_no_reg c rs : no_reg c (reg_step rs (Unregister c)).
@@ -390,8 +390,23 @@ Qed.
 
 Lemma points_canonical : forall x i t t0 tm h,
   AllSorted (stream x i t t0 tm h) /\
-  length (stream x i t t0 tm h) = length (filter (fun o => match o with Collect _ => true | _ => false end) h).
+  length (stream x i t t0 tm h) = length (filter (fun o => match o with Collect _ _ => true | _ => false end) h).
 Proof.
   intros. split; [apply all_sorted|]. rewrite stream_length. unfold cycles.
   destruct (is_async x); [apply cycles_async_length | apply cycles_sync_length].
+Qed.
+
+(** * A callback that returns an error changes nothing but the error report *)
+Definition clear_fail (h : list op) : list op :=
+  map (fun o => match o with Collect s _ => Collect s [] | _ => o end) h.
+
+Lemma cycles_sync_clear_fail i h : forall cur, cycles_sync i (clear_fail h) cur = cycles_sync i h cur.
+Proof. induction h as [|o r IH]; intros cur; [reflexivity|]. destruct o; cbn [clear_fail map cycles_sync]; fold (clear_fail r); now rewrite IH. Qed.
+Lemma cycles_async_clear_fail i h : forall rs, cycles_async i (clear_fail h) rs = cycles_async i h rs.
+Proof. induction h as [|o r IH]; intros rs; [reflexivity|]. destruct o; cbn [clear_fail map cycles_async reg_step]; fold (clear_fail r); now rewrite IH. Qed.
+
+Lemma callback_error_harmless x i t t0 tm h : stream x i t t0 tm (clear_fail h) = stream x i t t0 tm h.
+Proof.
+  rewrite !stream_arun. f_equal. f_equal. unfold cycles.
+  destruct (is_async x); [apply cycles_async_clear_fail | apply cycles_sync_clear_fail].
 Qed.
